@@ -359,3 +359,104 @@ Definition walk_frame {S} (ops : wops S) (p : profile) (E : env) (f : symfile) (
        | Some r => walk_frame_cfi ops p E r addr s1
        | None => Ret None
        end.
+
+(* ==== the documented semantics of program strings, written independently (walker.rs module
+        docs, "STACK WIN expression mode"): variables are a partial function, tokens are classified
+        first, `@` truncates to a multiple ==== *)
+Definition venv := bytes -> option Z.
+Inductive wtok := KBin (op : Z) | KAssign | KDeref | KUndef | KVar (n : bytes) | KLit (v : Z) | KJunk.
+
+Definition win_lex (t : bytes) : wtok :=
+  match t with
+  | [c] =>
+      if is_binop_byte c then KBin c
+      else if c =? 61 then KAssign
+      else if c =? 94 then KDeref
+      else if (c =? 36) || (c =? 46) then KVar t
+      else match digit c with Some d => KLit d | None => KJunk end
+  | _ =>
+      if beq t T_undef then KUndef
+      else if starts_var t then KVar t
+      else match parse_int 32 t with Some v => KLit v | None => KJunk end
+  end.
+
+Definition wint (f : venv) (x : winval) : option Z :=
+  match x with WVar n => f n | WInt v => Some v | WUndef => None end.
+Definition fupd (f : venv) (k : bytes) (o : option Z) : venv := fun x => if beq x k then o else f x.
+
+Definition spec_bin32 (op l r : Z) : option Z :=
+  if op =? 43 then Some ((l + r) mod two32)
+  else if op =? 45 then Some ((l - r) mod two32)
+  else if op =? 42 then Some ((l * r) mod two32)
+  else if op =? 47 then (if r =? 0 then None else Some (l / r))
+  else if op =? 37 then (if r =? 0 then None else Some (l mod r))
+  else if (0 <? r) && (r =? 2 ^ Z.log2 r) then Some (l - l mod r) else None.
+
+Definition wspec_step (E : env) (k : wtok) (fs : venv * list winval) : option (venv * list winval) :=
+  let '(f, st) := fs in
+  match k with
+  | KBin op =>
+      match st with
+      | y :: x :: s =>
+          match wint f y, wint f x with
+          | Some r, Some l => match spec_bin32 op l r with Some v => Some (f, WInt v :: s) | None => None end
+          | _, _ => None
+          end
+      | _ => None
+      end
+  | KAssign =>
+      match st with
+      | y :: WVar n :: s =>
+          match y with
+          | WUndef => Some (fupd f n None, s)
+          | _ => match wint f y with Some v => Some (fupd f n (Some v), s) | None => None end
+          end
+      | _ => None
+      end
+  | KDeref =>
+      match st with
+      | x :: s => match wint f x with
+                  | Some a => match e_mem E a with Some v => Some (f, WInt (v mod two32) :: s) | None => None end
+                  | None => None
+                  end
+      | [] => None
+      end
+  | KUndef => Some (f, WUndef :: st)
+  | KVar n => Some (f, WVar n :: st)
+  | KLit v => Some (f, WInt (v mod two32) :: st)
+  | KJunk => None
+  end.
+Fixpoint wspec_run (E : env) (prog : list wtok) (fs : venv * list winval) : option (venv * list winval) :=
+  match prog with
+  | [] => Some fs
+  | k :: r => match wspec_step E k fs with Some fs' => wspec_run E r fs' | None => None end
+  end.
+
+(* "Before evaluating a STACK WIN expression" *)
+Definition win_spec_init (E : env) (i : win_info) (e : bytes) : option venv :=
+  match e_callee E N_esp, e_callee E N_ebp with
+  | Some esp64, Some ebp64 =>
+      let esp := esp64 mod two32 in
+      let ebp := ebp64 mod two32 in
+      let fs := w_locals i + w_saved i + e_gcps E in
+      let ss := if contains_at e then ebp + 4 else esp + fs in
+      if (w_locals i + w_saved i <? two32) && (fs <? two32) && (ss <? two32) then
+        Some (fun k =>
+          if beq k V_raSearchStart then Some ss else if beq k V_raSearch then Some ss
+          else if beq k V_cbLocals then Some (w_locals i) else if beq k V_cbSavedRegs then Some (w_saved i)
+          else if beq k V_cbCalleeParams then Some (e_gcps E) else if beq k V_cbParams then Some (w_params i)
+          else if beq k D_ebx then option_map (fun b => b mod two32) (e_callee E N_ebx)
+          else if beq k D_ebp then Some ebp else if beq k D_esp then Some esp else None)
+      else None
+  | _, _ => None
+  end.
+
+(* the variables after the program: None = evaluation fails *)
+Definition win_spec (E : env) (i : win_info) (e : bytes) : option venv :=
+  match win_spec_init E i e with
+  | None => None
+  | Some f => match wspec_run E (map win_lex (win_tokens e)) (f, []) with
+              | Some (f', _) => Some f'
+              | None => None
+              end
+  end.
